@@ -46,8 +46,25 @@ func v8Check(t testing.TB, snippets []string) []verdict {
 	if len(nodes) == 0 {
 		t.Skip("node not found")
 	}
+	res := make([]verdict, len(snippets))
+	for _, node := range nodes {
+		for j, v := range v8CheckOne(t, node, snippets) {
+			res[j].script = res[j].script || v[0]
+			res[j].module = res[j].module || v[1]
+		}
+	}
+	return res
+}
+
+// v8CheckOne runs one node process over the batch. Some node versions abort
+// while decorating certain syntax errors; then the batch is bisected and an
+// input that crashes node on its own counts as rejected.
+func v8CheckOne(t testing.TB, node string, snippets []string) [][2]bool {
+	if len(snippets) == 0 {
+		return nil
+	}
 	dir := t.TempDir()
-	in := filepath.Join(dir, "in.json")
+	in, outFile := filepath.Join(dir, "in.json"), filepath.Join(dir, "out.json")
 	data, err := json.Marshal(snippets)
 	if err != nil {
 		t.Fatal(err)
@@ -55,28 +72,26 @@ func v8Check(t testing.TB, snippets []string) []verdict {
 	if err := os.WriteFile(in, data, 0o644); err != nil {
 		t.Fatal(err)
 	}
-	res := make([]verdict, len(snippets))
 	script, _ := filepath.Abs("testdata/check.js")
-	for i, node := range nodes {
-		outFile := filepath.Join(dir, "out"+strconv.Itoa(i)+".json")
-		cmd := exec.Command(node, "--experimental-vm-modules", "--no-warnings", script, in, outFile)
-		if b, err := cmd.CombinedOutput(); err != nil {
-			t.Fatalf("%s: %v\n%s", node, err, b)
+	cmd := exec.Command(node, "--experimental-vm-modules", "--no-warnings", script, in, outFile)
+	if msg, err := cmd.CombinedOutput(); err != nil {
+		if len(snippets) == 1 {
+			t.Logf("%s crashes on %q: %v", node, snippets[0], err)
+			return [][2]bool{{false, false}}
 		}
-		b, err := os.ReadFile(outFile)
-		if err != nil {
-			t.Fatal(err)
-		}
-		var out [][2]bool
-		if err := json.Unmarshal(b, &out); err != nil {
-			t.Fatal(err)
-		}
-		for j, v := range out {
-			res[j].script = res[j].script || v[0]
-			res[j].module = res[j].module || v[1]
-		}
+		_ = msg
+		mid := len(snippets) / 2
+		return append(v8CheckOne(t, node, snippets[:mid]), v8CheckOne(t, node, snippets[mid:])...)
 	}
-	return res
+	b, err := os.ReadFile(outFile)
+	if err != nil {
+		t.Fatal(err)
+	}
+	var out [][2]bool
+	if err := json.Unmarshal(b, &out); err != nil || len(out) != len(snippets) {
+		t.Fatalf("bad output from %s: %v", node, err)
+	}
+	return out
 }
 
 // constString evaluates a Go expression made of string literals and '+'.
@@ -202,12 +217,15 @@ func TestCorpusAcceptance(t *testing.T) {
 				continue
 			}
 			accepted++
-			if _, err := Parse(src, Options{Module: goal.module}); err != nil {
+			prog, err := Parse(src, Options{Module: goal.module})
+			if err != nil {
 				failures++
 				if failures <= 40 {
 					t.Errorf("module=%v: %v\n%s", goal.module, err, firstLines(src, 300))
 				}
+				continue
 			}
+			checkInvariants(t, firstLines(src, 80), src, prog)
 		}
 	}
 	t.Logf("corpus: %d snippets, %d (snippet,goal) pairs accepted by V8, %d jsref failures", len(corpus), accepted, failures)
